@@ -41,6 +41,7 @@ type gSchema struct {
 	hasVecDeclared bool
 	hasUnion       bool
 	condBits       uint32 // set of bit numbers used by conditional fields
+	interleaved    bool   // a union constructor is separated from its siblings by another declaration
 }
 
 const errorLine = "liteServer.error#bba9e148 code:int message:string = liteServer.Error;"
@@ -242,10 +243,31 @@ func drawSchema(r tlref.Rand, seed uint64) *gSchema {
 		fmt.Fprintf(&sb, " = %s;\n", d.result)
 	}
 	sb.WriteString(errorLine + "\n")
+	// the constructors of one type need not be adjacent in a schema file: sometimes the last constructor
+	// of a union is written after the declarations of the following type
+	interleave := r.Intn("interleave", 3) == 0
+	var held *gDecl
 	for _, t := range sc.types {
-		for _, d := range t.ctors {
+		ctors := t.ctors
+		if interleave && len(ctors) >= 2 && held == nil {
+			held = ctors[len(ctors)-1]
+			ctors = ctors[:len(ctors)-1]
+			for _, d := range ctors {
+				line(d)
+			}
+			continue
+		}
+		for _, d := range ctors {
 			line(d)
 		}
+		if held != nil {
+			line(held)
+			held = nil
+			sc.interleaved = true
+		}
+	}
+	if held != nil {
+		line(held)
 	}
 	sb.WriteString("---functions---\n")
 	for _, d := range sc.funcs {
